@@ -115,3 +115,27 @@ func H_C02_seek_step() {
 	vReach("moved")
 	vAssert(err == nil && np == want && r.position == want, "the position is what the Seeker contract says")
 }
+
+// H_C02_read_dead: a reader that has been reading piece 0 (its request for that piece is cached)
+// when the torrent is deleted: its reads must fail promptly - within two calls - and return no
+// data; a consumer that retries on (0, nil), as io.ReadFull and io.Copy do, must not spin for
+// ever. The REAL Reader.request and Torrent.Request (no event loop: the torrent is dead, its
+// queue has room).
+func H_C02_read_dead() {
+	t := vLiveTorrent()
+	t.Pieces.Del()
+	close(t.Done)
+	pos := vI64("pos")
+	vAssume(pos >= 0 && pos < 16384)
+	r := &Reader{torrent: t, offset: 0, length: 2 * 16384, position: pos, requestedIndex: 0, context: vLiveContext()}
+	r.requested = []requested{{0, 1}}
+	a := make([]byte, 64)
+	n1, err1 := r.Read(a)
+	vAssert(n1 == 0, "no data from a deleted torrent")
+	if err1 != nil {
+		vReach("failed-at-once")
+		return
+	}
+	n2, err2 := r.Read(a) // (0, nil) once is tolerated, twice is an endless loop for the consumer
+	vAssert(n2 == 0 && err2 != nil, "reads of a deleted torrent fail promptly (no endless (0, nil))")
+}
